@@ -33,6 +33,28 @@ pub struct ExecWorld {
     pub batch_size: Option<usize>,
     pub morsel: bool,
     pub knobs: Vec<(String, i64)>,
+    /// virtual worker count: partition counts as if this many workers existed, while every
+    /// task still runs on the one simulated thread (sets `scan.partitions` and the
+    /// configuration's parallel_partitions)
+    pub virt_partitions: Option<usize>,
+    /// seeded scheduling coin: probability (out of 256) that a task gives up its turn at a
+    /// scheduling point
+    pub sched_p256: Option<u64>,
+    /// armed spill I/O faults: (site, fail on this 0-based hit of the site, per statement)
+    pub faults: Vec<(String, u64)>,
+}
+
+/// What a world's run recorded besides the outcomes.
+#[derive(Default, Debug)]
+pub struct WorldTrace {
+    /// per statement: (hash of the scheduling trace, points passed, yields taken)
+    /// the flag: the statement passed through an operator that hands work to real blocking
+    /// threads, so the order of its trace is not decided by the simulator alone
+    pub sched: Vec<(u64, usize, usize, bool)>,
+    /// per statement: fault sites that fired
+    pub fired: Vec<Vec<String>>,
+    /// hits per fault site over the whole world
+    pub hits: std::collections::BTreeMap<String, u64>,
 }
 
 impl ExecWorld {
@@ -47,6 +69,9 @@ impl ExecWorld {
             batch_size: None,
             morsel: true,
             knobs: vec![],
+            virt_partitions: None,
+            sched_p256: None,
+            faults: vec![],
         }
     }
     pub fn describe(&self) -> Value {
@@ -54,11 +79,12 @@ impl ExecWorld {
             "label": self.label,
             "storage": match &self.storage {
                 Storage::Memory { cuts } => json!({"memory_batches": cuts.iter().map(|c| c.len() + 1).collect::<Vec<_>>()}),
-                Storage::Parquet { layouts } => json!({"parquet": layouts.iter().map(|l| json!({"files": l.file_cuts.len() + 1, "rg_rows": l.row_group_rows, "dict": l.dictionary, "stats": l.stats})).collect::<Vec<_>>()}),
+                Storage::Parquet { layouts } => json!({"parquet": layouts.iter().map(|l| json!({"files": l.file_cuts.len() + 1, "rg_rows": l.row_group_rows, "dict": l.dictionary, "stats": l.stats, "empty_rgs": l.empty_row_groups})).collect::<Vec<_>>()}),
             },
             "threads": self.threads, "tokio_workers": self.tokio_workers,
             "memory_limit": self.memory_limit, "spill_threshold": self.spill_threshold, "batch_size": self.batch_size,
             "morsel": self.morsel, "knobs": self.knobs,
+            "virt_partitions": self.virt_partitions, "sched_p256": self.sched_p256, "faults": self.faults,
         })
     }
     pub fn features(&self) -> Vec<String> {
@@ -71,7 +97,12 @@ impl ExecWorld {
                     f.push("storage:memory".into());
                 }
             }
-            Storage::Parquet { .. } => f.push("storage:parquet".into()),
+            Storage::Parquet { layouts } => {
+                f.push("storage:parquet".into());
+                if layouts.iter().any(|l| !l.empty_row_groups.is_empty()) {
+                    f.push("layout:empty_row_groups".into());
+                }
+            }
         }
         if self.threads > 1 {
             f.push("threads:many".into());
@@ -87,6 +118,15 @@ impl ExecWorld {
         }
         for (k, v) in &self.knobs {
             f.push(format!("knob:{k}={v}"));
+        }
+        if self.virt_partitions.is_some() {
+            f.push("virtual-partitions".into());
+        }
+        if self.sched_p256.is_some() {
+            f.push("sched:seeded-yields".into());
+        }
+        for (site, _) in &self.faults {
+            f.push(format!("fault:{site}"));
         }
         f
     }
@@ -124,6 +164,9 @@ pub fn build_ctx(sc: &Scenario, w: &ExecWorld) -> Built {
     }
     cfg = cfg.with_morsel_execution(w.morsel);
     let mut ctx = ExecutionContext::with_config(cfg);
+    if let Some(k) = w.virt_partitions {
+        ctx = ctx.with_parallel_partitions(k);
+    }
     match &w.storage {
         Storage::Memory { cuts } => {
             for (t, c) in sc.tables.iter().zip(cuts) {
@@ -144,16 +187,27 @@ pub fn build_ctx(sc: &Scenario, w: &ExecWorld) -> Built {
 /// Execute every statement of the scenario in the world; returns the outcomes and the
 /// physical plan text of each statement.
 pub fn run_world(sc: &Scenario, w: &ExecWorld, seed: u64) -> Vec<(Outcome, String)> {
+    run_world_traced(sc, w, seed).0
+}
+
+/// As `run_world`, and also the hash of each statement's scheduling trace (the sequence of
+/// (site, yielded) decisions taken at the engine's scheduling points) and the number of
+/// yields taken; empty when the world installs no coin.
+pub fn run_world_traced(sc: &Scenario, w: &ExecWorld, seed: u64) -> (Vec<(Outcome, String)>, WorldTrace) {
     #[cfg(qe_verif)]
     {
         query_engine::verif::knobs::clear();
         for (k, v) in &w.knobs {
             query_engine::verif::knobs::set(k, *v);
         }
+        if let Some(k) = w.virt_partitions {
+            query_engine::verif::knobs::set("scan.partitions", k as i64);
+        }
         if w.threads == 1 && w.tokio_workers == 0 {
             query_engine::verif::knobs::set("subquery.single_thread_runtime", 1);
         }
     }
+    let traces: std::sync::Mutex<WorldTrace> = std::sync::Mutex::new(WorldTrace::default());
     let body = || {
         let rt = if w.tokio_workers == 0 {
             tokio::runtime::Builder::new_current_thread()
@@ -168,7 +222,22 @@ pub fn run_world(sc: &Scenario, w: &ExecWorld, seed: u64) -> Vec<(Outcome, Strin
         rt.block_on(async {
             let built = build_ctx(sc, w);
             let mut out = Vec::new();
-            for st in &sc.stmts {
+            for (si, st) in sc.stmts.iter().enumerate() {
+                #[cfg(qe_verif)]
+                if let Some(p) = w.sched_p256 {
+                    if w.tokio_workers == 0 {
+                        query_engine::verif::sched::install(crate::kit::rng::mix(&[seed, 0x5c4ed, si as u64]), p);
+                    }
+                }
+                #[cfg(qe_verif)]
+                if !w.faults.is_empty() {
+                    query_engine::verif::fault::reset();
+                    query_engine::verif::fault::set_counting(true);
+                    for (site, on_hit) in &w.faults {
+                        query_engine::verif::fault::arm(site, *on_hit, std::io::ErrorKind::Other);
+                    }
+                }
+                let _ = si;
                 let plan = match built.ctx.physical_plan(&st.sql) {
                     Ok(p) => query_engine::physical::display_plan(p.as_ref(), 0),
                     Err(_) => String::new(),
@@ -182,6 +251,30 @@ pub fn run_world(sc: &Scenario, w: &ExecWorld, seed: u64) -> Vec<(Outcome, Strin
                         Outcome::Err { class: "panic", msg: format!("panicked: {msg}") }
                     }
                 };
+                #[cfg(qe_verif)]
+                if let Some(st) = query_engine::verif::sched::take() {
+                    let mut h = 0xcbf29ce484222325u64;
+                    let mut yields = 0usize;
+                    for (site, y) in &st.trace {
+                        h = (h ^ fnv(site.as_bytes()) ^ (*y as u64)).wrapping_mul(0x100000001b3);
+                        yields += *y as usize;
+                    }
+                    if std::env::var("VERIF_DUMP_LOG").is_ok() {
+                        eprintln!("TRACE {} {:?}", w.label, st.trace);
+                    }
+                    let real_threads = st.trace.iter().any(|(site, _)| site.starts_with("spill_agg."));
+                    traces.lock().unwrap().sched.push((h, st.trace.len(), yields, real_threads));
+                }
+                #[cfg(qe_verif)]
+                if !w.faults.is_empty() {
+                    let (hits, fired) = query_engine::verif::fault::reset();
+                    query_engine::verif::fault::set_counting(false);
+                    let mut t = traces.lock().unwrap();
+                    for (k, n) in hits {
+                        *t.hits.entry(k).or_insert(0) += n;
+                    }
+                    t.fired.push(fired);
+                }
                 out.push((o, plan));
             }
             out
@@ -200,7 +293,7 @@ pub fn run_world(sc: &Scenario, w: &ExecWorld, seed: u64) -> Vec<(Outcome, Strin
     };
     #[cfg(qe_verif)]
     query_engine::verif::knobs::clear();
-    out
+    (out, traces.into_inner().unwrap())
 }
 
 fn ovu(ov: &Value, k: &str) -> Option<usize> {
@@ -308,10 +401,24 @@ fn gen_worlds(prop: Prop, rng: &mut Rng, sc: &Scenario, tier: Tier) -> Vec<ExecW
             for i in 0..3 * many {
                 let mut w = ExecWorld::baseline(nt);
                 w.label = format!("split{i}");
-                w.storage = Storage::Memory { cuts: sc.tables.iter().map(|t| datagen::gen_cuts(rng, t.rows, 14)).collect() };
+                w.storage = Storage::Memory { cuts: sc.tables.iter().map(|t| datagen::gen_cuts_holes(rng, t.rows, 14)).collect() };
                 // the partition count follows the rayon worker count as shipped
                 w.threads = *rng.pick(&[1usize, 2, 3, 4, 8, 16]);
                 w.tokio_workers = *rng.pick(&[0usize, 0, 2, 4]);
+                ws.push(w);
+            }
+            // deterministic tier: the partition counts of a k-worker process, every task on
+            // the one simulated thread, and a seeded coin at the engine's scheduling points
+            // deciding who gives up its turn -- one seed, one interleaving, replayable
+            for i in 0..3 * many {
+                let mut w = ExecWorld::baseline(nt);
+                w.label = format!("virt{i}");
+                w.storage = Storage::Memory { cuts: sc.tables.iter().map(|t| datagen::gen_cuts_holes(rng, t.rows, 14)).collect() };
+                w.virt_partitions = Some(*rng.pick(&[2usize, 3, 4, 5, 8, 13]));
+                w.sched_p256 = Some(*rng.pick(&[0u64, 32, 96, 160, 224]));
+                if rng.chance(1, 4) {
+                    w.batch_size = Some(*rng.pick(&[64usize, 512, 1024]));
+                }
                 ws.push(w);
             }
         }
@@ -337,6 +444,13 @@ fn gen_worlds(prop: Prop, rng: &mut Rng, sc: &Scenario, tier: Tier) -> Vec<ExecW
                 w.spill_threshold = Some(*rng.pick(&[0.8, 0.8, 0.5, 0.1, 1.0]));
                 if rng.chance(1, 3) {
                     w.batch_size = Some(*rng.pick(&[1usize, 7, 64, 1024]));
+                }
+                // disk faults inside the spill paths: the k-th write / append / read / merge of
+                // a spill file fails; the answer must still be the unlimited one or an error
+                if rng.chance(1, 3) {
+                    let site = *rng.pick(&["spill.write", "spill.write", "spill.read", "spill.read", "spill.append", "spill.merge"]);
+                    let on_hit = *rng.pick(&[0u64, 0, 1, 2, 3, 5, 9]);
+                    w.faults.push((site.to_string(), on_hit));
                 }
                 ws.push(w);
             }
@@ -373,8 +487,32 @@ pub fn run_prop(prop: Prop, tier: Tier, run_seed: u64, ov: &Value) -> RunOut {
         log.push(format!("{si} {} base={}", st.sql, base[si].0.tag()));
     }
     for (wi, w) in worlds.iter().enumerate() {
-        let got = run_world(&sc, w, run_seed ^ (wi as u64 + 1));
+        let (got, traces) = run_world_traced(&sc, w, run_seed ^ (wi as u64 + 1));
         let deterministic_world = w.threads == 1 && w.tokio_workers == 0;
+        for (site, _) in &w.faults {
+            out.bump(&format!("fault.{site}.armed"));
+        }
+        for (site, n) in &traces.hits {
+            out.add(&format!("n.site_hits.{site}"), *n);
+        }
+        for fired in &traces.fired {
+            for site in fired {
+                out.bump(&format!("fault.{site}.fired"));
+            }
+        }
+        for (h, points, yields, real_threads) in &traces.sched {
+            out.bump("sched.statements_with_coin");
+            out.add("sched.points_passed", *points as u64);
+            out.add("sched.yields_taken", *yields as u64);
+            if *yields > 0 {
+                out.bump("probe.sched_yield_taken");
+            }
+            if *real_threads {
+                out.bump("n.sched.traces_through_real_blocking_threads");
+            } else if deterministic_world {
+                log.push(format!("w{wi} trace {h:x} {points} {yields}"));
+            }
+        }
         for (si, st) in sc.stmts.iter().enumerate() {
             let (b, _bplan) = &base[si];
             let (g, gplan) = &got[si];
@@ -388,10 +526,18 @@ pub fn run_prop(prop: Prop, tier: Tier, run_seed: u64, ov: &Value) -> RunOut {
                 }
             }
             let verdict: Result<(), (String, String)> = match (b, g) {
-                (Outcome::Rows(_), Outcome::Rows(_)) => compare(st, b, g),
+                (Outcome::Rows(_), Outcome::Rows(_)) => {
+                    if traces.fired.get(si).map(|f| !f.is_empty()).unwrap_or(false) {
+                        out.bump("probe.rows_after_fired_disk_fault");
+                    }
+                    compare(st, b, g)
+                }
                 (Outcome::Rows(_), Outcome::Err { class, msg }) => {
                     if prop == Prop::C08 {
                         out.bump("probe.explicit_error_under_budget");
+                        if msg.contains("injected fault") {
+                            out.bump("probe.injected_disk_fault_surfaced_as_error");
+                        }
                         Ok(())
                     } else {
                         Err((format!("error-instead-of-rows:{class}"), msg.clone()))
@@ -407,7 +553,9 @@ pub fn run_prop(prop: Prop, tier: Tier, run_seed: u64, ov: &Value) -> RunOut {
                 (Outcome::Err { .. }, Outcome::Err { .. }) => Ok(()),
             };
             if matches!(b, Outcome::Rows(_)) {
-                out.case_hashes.push(fnv(gplan.as_bytes()) ^ fnv(w.describe().to_string().as_bytes()) ^ fnv(st.family.as_bytes()));
+                // in a coin world the scheduling trace is part of the case: same plan and world under another interleaving is another case
+                let th = traces.sched.get(si).map(|t| t.0).unwrap_or(0);
+                out.case_hashes.push(fnv(gplan.as_bytes()) ^ fnv(w.describe().to_string().as_bytes()) ^ fnv(st.family.as_bytes()) ^ th);
             }
             if let Err((sym, d)) = verdict {
                 let mut f = vec![format!("family:{}", st.family)];
@@ -447,6 +595,9 @@ pub fn run_prop(prop: Prop, tier: Tier, run_seed: u64, ov: &Value) -> RunOut {
     }
     out.sample = Some(json!({"tables": sc.tables.iter().map(|t| (t.name.clone(), t.rows)).collect::<Vec<_>>(), "worlds": worlds.iter().map(|w| w.describe()).collect::<Vec<_>>(), "stmts": sc.stmts.iter().take(3).map(|s| s.sql.clone()).collect::<Vec<_>>()}));
     out.log_hash = fnv(log.join("\n").as_bytes());
+    if std::env::var("VERIF_DUMP_LOG").is_ok() {
+        eprintln!("{}", log.join("\n"));
+    }
     out
 }
 
@@ -475,15 +626,21 @@ pub fn debug(prop: Prop, doc: &Value, sql_override: Option<&str>) {
     let mut sc = gen_scenario(&rng, ov, min_rows, max_rows, fams, n_stmts);
     let mut wr = rng.fork(7);
     let worlds = gen_worlds(prop, &mut wr, &sc, tier);
-    let wi = doc["context"]["world_index"].as_u64().unwrap_or(0) as usize;
+    // a shrunk replay pins its world through the override; its context index is then 0
+    let wi = ovu(ov, "only_world").unwrap_or(doc["context"]["world_index"].as_u64().unwrap_or(0) as usize);
     let w = worlds[wi.min(worlds.len() - 1)].clone();
     let sql = sql_override.map(String::from).unwrap_or_else(|| doc["context"]["sql"].as_str().unwrap_or("").to_string());
-    sc.stmts = vec![Stmt { sql: sql.clone(), family: "debug", order_keys: vec![], tables: vec![], features: vec![] }];
+    // keep the statement at its index in the run: the scheduling coin is seeded per index
+    let si = if ov.get("only_stmt").is_some() { 0 } else { doc["context"]["stmt_index"].as_u64().unwrap_or(0) as usize };
+    sc.stmts = (0..si).map(|_| Stmt { sql: "SELECT 1".into(), family: "debug", order_keys: vec![], tables: vec![], features: vec![] }).collect();
+    sc.stmts.push(Stmt { sql: sql.clone(), family: "debug", order_keys: vec![], tables: vec![], features: vec![] });
     println!("tables: {:?}", sc.tables.iter().map(|t| (t.name.clone(), t.rows, t.cols.iter().map(|c| format!("{}:{:?}/{}", c.name, c.ty, c.nulls16)).collect::<Vec<_>>())).collect::<Vec<_>>());
     println!("world: {}", w.describe());
     let mut rendered: Vec<Vec<String>> = Vec::new();
     for (name, world) in [("baseline", ExecWorld::baseline(sc.tables.len())), ("world", w)] {
-        let r = run_world(&sc, &world, run_seed);
+        // the same per-world seed as the run (it seeds the scheduling coin)
+        let r = run_world(&sc, &world, if name == "world" { run_seed ^ (wi as u64 + 1) } else { run_seed });
+        let r = vec![r.into_iter().last().unwrap()];
         if let Outcome::Rows(rows) = &r[0].0 {
             let mut l: Vec<String> = rows.iter().map(crate::kit::canon::render_row).collect();
             l.sort();
